@@ -483,8 +483,11 @@ class Check:
         cov.update({k: v for k, v in self.extra.items() if k != 'exhaustive'})
         ev = {'property_id': self.pid, 'tier': self.tier, 'seed': self.seed, 'level': 'proof', 'coverage': cov,
               'assumptions': (assumptions or []) + self.notes, 'wall_s': round(wall, 2), 'violations': violations}
-        os.makedirs(os.path.join(VERIF, 'evidence'), exist_ok=True)
-        with open(os.path.join(VERIF, 'evidence', self.pid + '.json'), 'w') as f:
+        # evidence/ describes runs against /repo itself; a run pointed at a scratch checkout (seeded changes) writes elsewhere
+        edir = os.path.join(VERIF, 'evidence' if os.path.realpath(REPO) == '/repo' else os.path.join('replays', '_scratch_evidence'))
+        ev['repo'] = REPO
+        os.makedirs(edir, exist_ok=True)
+        with open(os.path.join(edir, self.pid + '.json'), 'w') as f:
             json.dump(ev, f, indent=1, default=str)
         for ln in lines:
             print(ln)
